@@ -1,0 +1,61 @@
+//go:build verif
+
+// Contracts for the deductive verifier in /verif (comment-only; compiled only
+// with -tags verif).  Syntax: see /verif/DESIGN.md.
+package lfshttp
+
+// C10.  The request built for a redirect carries an Authorization header only
+// if the redirect target has the same URL.Host (host:port) as the request the
+// header was on, and an https request is never turned into an http one.
+// Header keys of requests are canonical (net/http's type invariant), which is
+// why the code may compare against the literal "Authorization".
+//@ func newRequestForRetry
+//@   props C10
+//@   requires @inv req != nil && req.URL != nil && req.Header != nil
+//@   requires @inv forall_v(k, has(req.Header, k), has(req.Header, k) ==> str_canon(k) == k)
+//@   ensures result1 == nil ==> result0 != nil && result0.URL != nil
+//@   ensures result1 == nil && has(result0.Header, "Authorization") ==> result0.URL.Host == req.URL.Host
+//@   ensures result1 == nil ==> !(req.URL.Scheme == "https" && result0.URL.Scheme == "http")
+//@   ensures result1 != nil ==> result0 == nil
+//@   ensures result1 == nil ==> result0.Header != nil && forall_v(k, has(result0.Header, k), has(result0.Header, k) ==> str_canon(k) == k)
+//@   loop 1 invariant has(newReq.Header, "Authorization") ==> sameHost
+//@   loop 1 invariant newReq.Header != req.Header
+//@   loop 1 invariant forall_v(k, has(req.Header, k), has(req.Header, k) ==> str_canon(k) == k)
+//@   loop 1 invariant forall_v(k, has(newReq.Header, k), has(newReq.Header, k) ==> str_canon(k) == k)
+
+// The redirect chain: every recursive call must be made with a longer chain,
+// and a chain of three requests is never extended.
+//@ func (*Client).doWithRedirects
+//@   props C10
+//@   requires @inv req != nil && req.URL != nil && req.Header != nil
+//@   requires @inv forall_v(k, has(req.Header, k), has(req.Header, k) ==> str_canon(k) == k)
+//@   decreases 3 - len(via)
+
+//@ func (*Client).DoWithRedirect
+//@   props C10
+//@   requires @inv req != nil && req.URL != nil && req.Header != nil
+//@   requires @inv forall_v(k, has(req.Header, k), has(req.Header, k) ==> str_canon(k) == k)
+//@   ensures result0 != nil ==> result2 == nil && result1 == nil
+//@   ensures result0 != nil ==> len(via) + 1 < 3
+//@   ensures result0 != nil ==> result0.URL != nil && result0.Header != nil && forall_v(k, has(result0.Header, k), has(result0.Header, k) ==> str_canon(k) == k)
+//@   ensures result0 != nil && has(result0.Header, "Authorization") ==> result0.URL.Host == old(req.URL.Host)
+//@   ensures result0 != nil ==> !(old(req.URL.Scheme) == "https" && result0.URL.Scheme == "http")
+
+// Tracing and response classification: assumed frames (they log, wrap the
+// request body and build error values; they do not touch URL or Header).
+//@ func (*Client).traceRequest
+//@   assumed
+//@   props C10
+//@   modifies field req.Body
+//@ func (*Client).traceResponse
+//@   assumed
+//@   props C10
+//@   modifies fresh
+//@ func (*Client).handleResponse
+//@   assumed
+//@   props C10
+//@   modifies fresh
+//@ func Retries
+//@   assumed
+//@   props C10
+//@   modifies fresh
